@@ -456,7 +456,7 @@ def mp(name, module, what):
 PROPS['C16'] = {
     'verus': ['u_pwsel', 'u_merge', 'u_pweval'],
     # units of the other properties: only their panic-class obligations (assert!, index/overflow/division, exec-callee preconditions) count here
-    'verus_panic_only': ['u_approx', 'u_segment', 'u_linear', 'u_spline', 'u_polycalc', 'u_log', 'u_ops', 'u_polyeval'],
+    'verus_panic_only': ['u_evalv', 'u_approx', 'u_segment', 'u_linear', 'u_spline', 'u_polycalc', 'u_log', 'u_ops', 'u_polyeval'],
     'kani': {
         'quick': [kset('c16',
                        hs('c02_direct_n', 'piecewise', [1, 2, 3, 4, 9], 'segments N = {n}; every f64 argument', PW_EVAL) +
